@@ -29,7 +29,7 @@ RULE = ("cases: fitter configurations with <= k deviations from the default; exe
 ASSUMPTIONS = ["finite value alphabets (DESIGN.md section 0)", "theta*dmin not below the smallest aperture (precondition)",
                "sources have >= 1 fitted point with non-zero extinction coefficient"]
 REQUIRED_CLASSES = ['n_distances==1', 'aperture-beyond-table', 'best-at-first', 'best-interior', 'best-at-last', 'av-clipped-some-distances',
-                    'range-multiple-of-step', 'range-exact-multiple-exact-arithmetic', 'float32-path', 'limit-violated', 'non-monotone-growth', 'mixed-theta', 'request-on-smallest-aperture', 'distance-range-in-other-unit', 'apertures-in-other-angular-unit']
+                    'range-multiple-of-step', 'range-exact-multiple-exact-arithmetic', 'float32-path', 'limit-violated', 'non-monotone-growth', 'mixed-theta', 'request-on-smallest-aperture', 'distance-range-in-other-unit', 'apertures-in-other-angular-unit', 'aperture-tables-differ-between-bands', 'aperture-table-stored-decreasing']
 TIMEOUT = {'quick': 300, 'thorough': 1800}
 
 AXES = {
@@ -42,6 +42,7 @@ AXES = {
     'theta': ['uniform', 'mixed'],
     'dunit': ['kpc', 'pc', 'cm'],
     'tunit': ['arcsec', 'arcmin', 'rad'],
+    'aptab': ['same', 'per-band', 'stored-decreasing'],
 }
 VARIANTS = [('v1', False, False), ('v2', True, False), ('v2', False, False), ('v2', True, True)]
 BANDS = ['B1', 'B3', 'B5']
@@ -103,6 +104,18 @@ def run_case(ctx, case, rec, d):
     dmin, dmax = _range(case['range'], step, ap, theta)
     avlo, avhi = case['avr']
     spec = {'fmt': fmt, 'names': names, 'bands': BANDS, 'apertures': ap, 'tables': tables, 'logd_step': step}
+    ap_tabs = [ap] * len(BANDS)
+    tabs = [tables[:, b, :] for b in range(len(BANDS))]
+    if case.get('aptab') == 'per-band' and case['n_ap'] >= 3 and not bywav:
+        # band-specific aperture tables: the middle band is tabulated out to a smaller largest aperture
+        keep = [case['n_ap'], case['n_ap'] - 1, case['n_ap']]
+        spec['ap_per_band'] = keep
+        ap_tabs = [ap[:k_] for k_ in keep]
+        tabs = [tables[:, b, :keep[b]] for b in range(len(BANDS))]
+        rec.cls('aperture-tables-differ-between-bands')
+    if case.get('aptab') == 'stored-decreasing' and not bywav:
+        spec['ap_order'] = 'dec'
+        rec.cls('aperture-table-stored-decreasing')
     md = fc.build_package(d, 'pkg', spec)
     cfg_key = tuple(sorted((k, str(v)) for k, v in case.items()))
     try:
@@ -140,8 +153,8 @@ def run_case(ctx, case, rec, d):
     if case['range'] == 'exactmultiple' and step == 0.25:
         rec.cls('range-exact-multiple-exact-arithmetic')
     k = fc.law_k('power', [fc.BAND_WAV[b] for b in BANDS])
-    logm3 = fitref.model_logflux_3d([tables[:, b, :] for b in range(len(BANDS))], [ap] * len(BANDS), theta, grid)
-    if np.any(np.array(theta)[None, :] * grid[:, None] * 1000.0 > ap[-1]):
+    logm3 = fitref.model_logflux_3d(tabs, ap_tabs, theta, grid)
+    if np.any(np.array(theta)[None, :] * grid[:, None] * 1000.0 > min(a_[-1] for a_ in ap_tabs)):
         rec.cls('aperture-beyond-table')
     logd = np.log10(grid)
     first = True
